@@ -3,7 +3,14 @@
 //
 // Every case builds a fresh plain vivid.ActorSystem, spawns the REAL drill-master actor on it (no memberlist, no
 // network: cluster.VerifNewNode / VerifDrillmasterProvider of hooks/engine/vivid/cluster/verif_hooks.go), and drives a
-// history of lookups (the internal cm.ActorOf request, answered through FutureAsk) and of child terminations.
+// history of lookups (the internal cm.ActorOf request, answered through FutureAsk) and of child terminations. A
+// termination has two phases: B (begin) sends the terminate request and HOLDS the member in vivid's Terminating state
+// (its OnTerminate handler, or the OnTerminate handler of a child it spawned at launch, blocks on a channel of the
+// harness) — the member is then still registered under its name and the manager has not received its termination notice —
+// and S (stop) lets it finish and waits until the manager has handled the notice; S without B is the whole termination.
+// Lookups of the same and of other pairs are made inside that window. Some abilities are declared with descriptor
+// configurators of their own (WithAbility(name, provider, configurator...)) that set a name prefix and/or a name and
+// harmless options: the manager's own naming must win.
 // Observed: the reply of every lookup (reference canonicalised to the child name below the manager + the serial
 // number of the ability-provider invocation that produced the actor behind it, obtained by pinging the reference),
 // errors, accidents of the manager (supervision logger on the manager), the manager's `members` table and the number
@@ -32,15 +39,17 @@ import (
 // ---------------------------------------------------------------- case
 
 type Op struct {
-	K string `json:"k"` // L = lookup (identity, ability); S = terminate the actor the harness holds for the pair
+	K string `json:"k"` // L = lookup (identity, ability); B = the actor the harness holds for the pair begins to terminate and is held Terminating; S = it terminates (completely)
 	I string `json:"i"`
 	A string `json:"a"`
 	T int    `json:"t,omitempty"` // concurrent modes: client number
+	G bool   `json:"g,omitempty"` // B: graceful terminate request (queued as a user message) instead of an immediate one
 }
 type Res struct {
-	K     string `json:"k"`              // ref err crash timeout stop bad
+	K     string `json:"k"`              // ref err crash timeout stop begin bad
 	Name  string `json:"name,omitempty"` // ref: child name below the manager
 	Inst  int    `json:"inst"`           // ref: serial of the provider invocation behind the reference (-1: nobody answered)
+	Win   bool   `json:"win,omitempty"`  // ref: the pair's member was held Terminating at that moment (Inst = last launch under that name, it cannot be pinged)
 	Found bool   `json:"found,omitempty"`
 	Gone  bool   `json:"gone,omitempty"` // stop: the manager forgot the pair
 	Err   string `json:"err,omitempty"`
@@ -56,7 +65,9 @@ type Launch struct {
 }
 type Case struct {
 	Offered  []string `json:"offered"`
-	Mode     string   `json:"mode"` // seq | burst | actors
+	Conf     []string `json:"conf,omitempty"` // per offered ability: its own descriptor configurators ("" none | prefix | name | both | two | harmless | spare)
+	Hold     string   `json:"hold,omitempty"` // how B holds a member in the Terminating state: handler (default) | child
+	Mode     string   `json:"mode"`           // seq | burst | actors
 	Ops      []Op     `json:"ops"`
 	Impl     []Res    `json:"impl"`
 	Members  []Member `json:"members"`
@@ -97,23 +108,67 @@ type node struct {
 	provided int32
 	term     map[int]chan struct{} // instance -> closed when that actor has handled its own OnTerminated
 	termSig  map[int]chan struct{} // same channels, removed when closed
+	lastInst map[string]int        // child name -> instance launched last under it
+	hold     map[string]*gate      // child name -> gate that keeps the member Terminating (set by B before the terminate request)
+	holdKind string
 	crashed  chan struct{}
 	once     sync.Once
 	reason   string
 	accident int32
+
+	memberAccidents int32
+}
+
+type gate struct {
+	entered chan struct{} // closed when the holder is inside its OnTerminate handler
+	release chan struct{} // closed by the harness: the termination may go on
+	once    sync.Once
+}
+
+func (g *gate) open() { g.once.Do(func() { close(g.release) }) }
+
+// block is called from an OnTerminate handler: if the harness asked for the member `name` to be held, report that the
+// termination has begun and wait for the release.
+func (n *node) block(name string) {
+	n.mu.Lock()
+	g := n.hold[name]
+	delete(n.hold, name)
+	n.mu.Unlock()
+	if g != nil {
+		close(g.entered)
+		<-g.release
+	}
 }
 
 type abilityActor struct {
 	n    *node
 	inst int
+	name string
 }
 
 func (a *abilityActor) OnReceive(ctx cluster.ActorContext) {
 	switch m := ctx.Message().(type) {
 	case *vivid.OnLaunch:
+		a.name = a.n.canon(ctx.Ref())
 		a.n.mu.Lock()
-		a.n.launches[a.n.canon(ctx.Ref())]++
+		a.n.launches[a.name]++
+		a.n.lastInst[a.name] = a.inst
 		a.n.mu.Unlock()
+		if a.n.holdKind == "child" {
+			// a child of the member: the member cannot finish terminating before this child has
+			name, n := a.name, a.n
+			ctx.ActorOf(vivid.FunctionalActorProvider(func() vivid.Actor {
+				return vivid.FunctionalActor(func(c vivid.ActorContext) {
+					if _, ok := c.Message().(*vivid.OnTerminate); ok {
+						n.block(name)
+					}
+				})
+			}))
+		}
+	case *vivid.OnTerminate:
+		if a.n.holdKind != "child" {
+			a.n.block(a.name)
+		}
 	case pingMsg:
 		ctx.Reply(pong{inst: a.inst})
 	case *vivid.OnTerminated:
@@ -140,14 +195,50 @@ func (n *node) canon(ref vivid.ActorRef) string {
 	return addr[len(n.base):]
 }
 
-func newNode(offered []string) *node {
-	n := &node{launches: map[string]int{}, term: map[int]chan struct{}{}, termSig: map[int]chan struct{}{}, crashed: make(chan struct{})}
+// ownConfigurators: descriptor configurators an ability is declared with. Whatever they say about the name, the manager's
+// naming is applied after them; the rest is harmless for a case that lasts milliseconds.
+func ownConfigurators(kind string, accidents *int32) []vivid.ActorDescriptorConfigurator {
+	f := func(g func(d *vivid.ActorDescriptor)) vivid.ActorDescriptorConfigurator {
+		return vivid.FunctionalActorDescriptorConfigurator(g)
+	}
+	switch kind {
+	case "prefix":
+		return []vivid.ActorDescriptorConfigurator{f(func(d *vivid.ActorDescriptor) { d.WithIdleDeadline(time.Hour).WithNamePrefix("own") })}
+	case "name":
+		return []vivid.ActorDescriptorConfigurator{f(func(d *vivid.ActorDescriptor) { d.WithName("fixed") })}
+	case "both":
+		return []vivid.ActorDescriptorConfigurator{f(func(d *vivid.ActorDescriptor) { d.WithNamePrefix("p").WithName("n").WithExpireDuration(time.Hour) })}
+	case "two":
+		return []vivid.ActorDescriptorConfigurator{
+			f(func(d *vivid.ActorDescriptor) { d.WithName("n1") }),
+			f(func(d *vivid.ActorDescriptor) { d.WithNamePrefix("p2").WithSlowProcessingDuration(time.Hour) }),
+		}
+	case "harmless":
+		return []vivid.ActorDescriptorConfigurator{f(func(d *vivid.ActorDescriptor) {
+			d.WithIdleDeadline(time.Hour).WithSupervisionStrategyProvider(nil, supervision.FunctionalLogger(func(*supervision.AccidentRecord) { atomic.AddInt32(accidents, 1) }))
+		})}
+	case "spare":
+		// a slice with spare capacity: the manager appends its own configurator to it for every member
+		l := make([]vivid.ActorDescriptorConfigurator, 1, 4)
+		l[0] = f(func(d *vivid.ActorDescriptor) { d.WithNamePrefix("sp") })
+		return l
+	}
+	return nil
+}
+
+func newNode(offered []string, conf []string, holdKind string) *node {
+	n := &node{launches: map[string]int{}, term: map[int]chan struct{}{}, termSig: map[int]chan struct{}{}, crashed: make(chan struct{}),
+		lastInst: map[string]int{}, hold: map[string]*gate{}, holdKind: holdKind}
 	n.sys = vivid.NewActorSystem(vivid.FunctionalActorSystemConfigurator(func(c *vivid.ActorSystemConfiguration) {
 		c.WithLoggerProvider(log.FunctionalLoggerProvider(func() *log.Logger { return log.NewSilentLogger() }))
 		c.WithName("c13")
 	}))
 	cn := cluster.VerifNewNode(n.sys, cluster.FunctionalActorSystemConfigurator(func(c *cluster.ActorSystemConfiguration) {
-		for _, ab := range offered {
+		for j, ab := range offered {
+			kind := ""
+			if j < len(conf) {
+				kind = conf[j]
+			}
 			c.WithAbility(ab, cluster.FunctionalActorProvider(func() cluster.Actor {
 				inst := int(atomic.AddInt32(&n.provided, 1)) - 1
 				n.mu.Lock()
@@ -155,7 +246,7 @@ func newNode(offered []string) *node {
 				n.termSig[inst] = n.term[inst]
 				n.mu.Unlock()
 				return &abilityActor{n: n, inst: inst}
-			}))
+			}), ownConfigurators(kind, &n.memberAccidents)...)
 		}
 	}))
 	n.manager = n.sys.ActorOf(cn.VerifDrillmasterProvider(), vivid.FunctionalActorDescriptorConfigurator(func(d *vivid.ActorDescriptor) {
@@ -275,6 +366,26 @@ func (n *node) lookup(ask askFn, i, a string, refs map[string]vivid.ActorRef) Re
 	return n.finishLookup(ask, v, err, st, refs, key(i, a))
 }
 
+// lookupInWindow: the member of the pair is held in the Terminating state. It handles no user message any more, so the
+// reference cannot be pinged: the instance behind the returned address is the one launched last under that name (the
+// name is still registered, nothing else can have been launched under it).
+func (n *node) lookupInWindow(ask askFn, i, a string, refs map[string]vivid.ActorRef) Res {
+	v, err, st := n.await(ask(n.manager, cluster.VerifActorOfRequest(i, a), curTimeout()), true)
+	if st == "ok" {
+		if ref, ok := v.(vivid.ActorRef); ok && ref != nil {
+			name := n.canon(ref)
+			n.mu.Lock()
+			inst, known := n.lastInst[name]
+			n.mu.Unlock()
+			if !known {
+				inst = -1
+			}
+			return Res{K: "ref", Name: name, Inst: inst, Win: true}
+		}
+	}
+	return n.finishLookup(ask, v, err, st, nil, key(i, a))
+}
+
 func key(i, a string) string { return fmt.Sprintf("%d:%s|%s", len(i), i, a) }
 
 func (n *node) snapshot() ([]Member, bool) {
@@ -293,8 +404,35 @@ func (n *node) snapshot() ([]Member, bool) {
 	return out, true
 }
 
-// stop terminates the actor held for the pair, waits until it has terminated and until the manager no longer lists it.
-func (n *node) stop(i, a string, refs map[string]vivid.ActorRef, insts map[string]int) Res {
+// begin sends the terminate request to the actor held for the pair and keeps it in the Terminating state: returns when
+// the holder (the member's OnTerminate handler, or that of its child) has been entered. From then on everything the
+// member did at the beginning of its termination has happened, and whatever it sent to the manager is queued before any
+// later request of the harness.
+func (n *node) begin(o Op, refs map[string]vivid.ActorRef, dying map[string]*gate) Res {
+	k := key(o.I, o.A)
+	ref := refs[k]
+	if ref == nil || dying[k] != nil {
+		return Res{K: "begin", Found: false, Inst: -1}
+	}
+	g := &gate{entered: make(chan struct{}), release: make(chan struct{})}
+	n.mu.Lock()
+	n.hold[n.canon(ref)] = g
+	n.mu.Unlock()
+	dying[k] = g
+	n.sys.Terminate(ref, o.G)
+	select {
+	case <-g.entered:
+	case <-n.crashed:
+		return Res{K: "crash", Err: n.reason, Inst: -1}
+	case <-time.After(stopTimeout):
+		return Res{K: "timeout", Inst: -1}
+	}
+	return Res{K: "begin", Found: true, Inst: -1}
+}
+
+// stop terminates the actor held for the pair (or lets it go on terminating when it is being held), waits until it has
+// terminated and until the manager no longer lists it.
+func (n *node) stop(i, a string, refs map[string]vivid.ActorRef, insts map[string]int, dying map[string]*gate) Res {
 	k := key(i, a)
 	ref := refs[k]
 	if ref == nil {
@@ -307,7 +445,12 @@ func (n *node) stop(i, a string, refs map[string]vivid.ActorRef, insts map[strin
 		ch = n.term[inst]
 		n.mu.Unlock()
 	}
-	n.sys.Terminate(ref, false)
+	if g := dying[k]; g != nil {
+		delete(dying, k)
+		g.open()
+	} else {
+		n.sys.Terminate(ref, false)
+	}
 	if ch != nil {
 		select {
 		case <-ch:
@@ -350,22 +493,36 @@ func runImpl(c *Case) {
 			c.Ops = c.Ops[:len(c.Impl)]
 		}
 	}()
-	n := newNode(c.Offered)
+	n := newNode(c.Offered, c.Conf, c.Hold)
 	defer n.shutdown()
 	c.Impl = nil
 	refs := map[string]vivid.ActorRef{}
 	insts := map[string]int{}
+	dying := map[string]*gate{} // pair -> gate of the member that is being held in the Terminating state
+	defer func() {
+		// members still held (a history that ends inside a window, or after an accident of the manager) are let go
+		for _, g := range dying {
+			g.open()
+		}
+	}()
 	switch c.Mode {
 	case "seq":
 		for idx, o := range c.Ops {
 			var r Res
-			if o.K == "L" {
-				r = n.lookup(n.sys.FutureAsk, o.I, o.A, refs)
-				if r.K == "ref" {
-					insts[key(o.I, o.A)] = r.Inst
+			switch o.K {
+			case "L":
+				if dying[key(o.I, o.A)] != nil {
+					r = n.lookupInWindow(n.sys.FutureAsk, o.I, o.A, refs)
+				} else {
+					r = n.lookup(n.sys.FutureAsk, o.I, o.A, refs)
+					if r.K == "ref" {
+						insts[key(o.I, o.A)] = r.Inst
+					}
 				}
-			} else {
-				r = n.stop(o.I, o.A, refs, insts)
+			case "B":
+				r = n.begin(o, refs, dying)
+			default:
+				r = n.stop(o.I, o.A, refs, insts, dying)
 			}
 			c.Impl = append(c.Impl, r)
 			if r.K == "crash" || r.K == "timeout" {
@@ -486,6 +643,16 @@ func monitor(c *Case) (viol []vh.Violation) {
 		}
 		r := c.Impl[idx]
 		k := key(o.I, o.A)
+		if o.K == "B" {
+			// the beginning of a termination: the actor is still there (registered, not terminated), so everything the
+			// property says about "while it lives" goes on holding until the termination is complete (S)
+			if r.K == "timeout" {
+				add(idx, "no-reply", "the actor did not begin to terminate", nil)
+			} else if r.K == "crash" {
+				add(idx, "manager-failed-other", "the manager actor had an accident: "+r.Err, map[string]string{"cause": "other"})
+			}
+			continue
+		}
 		if o.K == "S" {
 			if r.K == "stop" && r.Found {
 				delete(live, k)
@@ -611,9 +778,12 @@ func cstr(s string) string {
 func coqCase(id int, c *Case) string {
 	ops := make([]string, len(c.Ops))
 	for i, o := range c.Ops {
-		if o.K == "L" {
+		switch o.K {
+		case "L":
 			ops[i] = vh.App("Lookup", cstr(o.I), cstr(o.A))
-		} else {
+		case "B":
+			ops[i] = vh.App("Begin", cstr(o.I), cstr(o.A))
+		default:
 			ops[i] = vh.App("Stop", cstr(o.I), cstr(o.A))
 		}
 	}
@@ -628,6 +798,8 @@ func coqCase(id int, c *Case) string {
 			rs[i] = "OCrash"
 		case r.K == "stop" && (!r.Found || r.Gone):
 			rs[i] = vh.App("OStop", vh.Bool(r.Found))
+		case r.K == "begin":
+			rs[i] = vh.App("OBegin", vh.Bool(r.Found))
 		default:
 			rs[i] = "OBad"
 		}
@@ -654,6 +826,8 @@ func coqCase(id int, c *Case) string {
 var identityPool = []string{"a", "b", "c", "a-b", "b-c", "a-", "-a", "-", "a-b-c", "alice", "bob", "u1", "1", "12", "1-a", "2-ab", "x--y", "A", "a.b", "a_b", "0", "3-a-b", "é", "id~1"}
 var abilityPool = []string{"c", "b-c", "chat", "room", "a", "b", "-c", "c-", "-", "b-c-d", "1", "a-b", "x", "C"}
 var malformed = []string{"", " ", "a b", "a/b", "a\\b", "\t", "a\n", "/", "\\", " a", "a\rb", "a\fb"}
+
+var confKinds = []string{"prefix", "name", "both", "two", "harmless", "spare", "prefix", "name"}
 
 func pick(rng *vh.RNG, pool []string, k int) []string {
 	idx := map[int]bool{}
@@ -695,6 +869,16 @@ func genCase(rng *vh.RNG, mal bool) Case {
 			c.Offered = append(c.Offered, abs[len(abs)-1])
 		}
 	}
+	// abilities declared with descriptor configurators of their own (half of the cases, each offered ability with
+	// probability 2/3)
+	if rng.Chance(1, 2) {
+		c.Conf = make([]string, len(c.Offered))
+		for j := range c.Conf {
+			if rng.Chance(2, 3) {
+				c.Conf[j] = confKinds[rng.Intn(len(confKinds))]
+			}
+		}
+	}
 	switch rng.Intn(10) {
 	case 0, 1:
 		c.Mode = "burst"
@@ -703,16 +887,52 @@ func genCase(rng *vh.RNG, mal bool) Case {
 	default:
 		c.Mode = "seq"
 	}
+	// sequential histories: half of them with termination windows (B ... S), held by the member's own handler or by a
+	// child of the member
+	windows := c.Mode == "seq" && rng.Chance(1, 2)
+	if windows && rng.Chance(1, 3) {
+		c.Hold = "child"
+	}
+	isOffered := func(a string) bool {
+		for _, x := range c.Offered {
+			if x == a {
+				return true
+			}
+		}
+		return false
+	}
 	n := rng.Range(1, 14)
 	clients := rng.Range(2, 4)
 	var looked []Op
+	var open []Op // pairs whose termination was begun and (as far as the generator knows) not completed
 	for k := 0; k < n; k++ {
 		o := Op{K: "L", I: ids[rng.Intn(len(ids))], A: abs[rng.Intn(len(abs))]}
 		if len(looked) > 0 && rng.Chance(2, 5) {
 			p := looked[rng.Intn(len(looked))]
 			o.I, o.A = p.I, p.A // repeat
 		}
-		if c.Mode == "seq" && len(looked) > 0 && rng.Chance(1, 6) {
+		if windows && len(open) > 0 && rng.Chance(1, 2) {
+			// inside a window: look the terminating pair up, let it finish, or (seldom) ask it to terminate once more
+			j := rng.Intn(len(open))
+			p := open[j]
+			switch rng.Intn(8) {
+			case 0, 1:
+				o = Op{K: "S", I: p.I, A: p.A}
+				open = append(open[:j:j], open[j+1:]...)
+			case 2:
+				o = Op{K: "B", I: p.I, A: p.A, G: rng.Chance(1, 2)}
+			default:
+				o = Op{K: "L", I: p.I, A: p.A}
+			}
+		} else if windows && len(looked) > 0 && rng.Chance(1, 3) {
+			// mostly a pair that can have an actor (ability on offer)
+			p := looked[rng.Intn(len(looked))]
+			for try := 0; try < 4 && !isOffered(p.A); try++ {
+				p = looked[rng.Intn(len(looked))]
+			}
+			o = Op{K: "B", I: p.I, A: p.A, G: rng.Chance(1, 3)}
+			open = append(open, o)
+		} else if c.Mode == "seq" && len(looked) > 0 && rng.Chance(1, 6) {
 			p := looked[rng.Intn(len(looked))]
 			o = Op{K: "S", I: p.I, A: p.A}
 		} else if c.Mode == "seq" && rng.Chance(1, 40) {
@@ -732,7 +952,19 @@ func genCase(rng *vh.RNG, mal bool) Case {
 func corpus() []Case {
 	L := func(i, a string) Op { return Op{K: "L", I: i, A: a} }
 	S := func(i, a string) Op { return Op{K: "S", I: i, A: a} }
+	B := func(i, a string) Op { return Op{K: "B", I: i, A: a} }
+	BG := func(i, a string) Op { return Op{K: "B", I: i, A: a, G: true} }
 	return []Case{
+		// the window in which a member is terminating: same pair, other pairs, a second terminate request, then the end
+		{Offered: []string{"chat"}, Mode: "seq", Ops: []Op{L("alice", "chat"), B("alice", "chat"), L("alice", "chat"), L("bob", "chat"), L("alice", "chat"), S("alice", "chat"), L("alice", "chat"), L("alice", "chat")}},
+		{Offered: []string{"chat"}, Mode: "seq", Hold: "child", Ops: []Op{L("alice", "chat"), BG("alice", "chat"), L("alice", "chat"), B("alice", "chat"), L("alice", "chat"), S("alice", "chat"), L("alice", "chat")}},
+		{Offered: []string{"chat", "room"}, Mode: "seq", Ops: []Op{L("alice", "chat"), L("bob", "chat"), B("alice", "chat"), B("bob", "chat"), L("bob", "chat"), L("alice", "room"), S("bob", "chat"), L("bob", "chat"), L("alice", "chat")}},
+		{Offered: []string{"c", "b-c"}, Mode: "seq", Hold: "child", Ops: []Op{L("a-b", "c"), L("a", "b-c"), B("a-b", "c"), L("a", "b-c"), L("a-b", "c"), S("a", "b-c"), L("a-b", "c")}},
+		// abilities declared with configurators of their own: the manager's naming wins
+		{Offered: []string{"room"}, Conf: []string{"prefix"}, Mode: "seq", Ops: []Op{L("alice", "room"), L("alice", "room"), L("bob", "room"), L("alice", "room")}},
+		{Offered: []string{"chat", "room"}, Conf: []string{"name", "name"}, Mode: "seq", Ops: []Op{L("alice", "chat"), L("alice", "room"), L("alice", "chat"), L("bob", "room")}},
+		{Offered: []string{"chat", "room"}, Conf: []string{"both", "two"}, Mode: "burst", Ops: []Op{L("alice", "chat"), L("bob", "chat"), L("alice", "room"), L("bob", "room"), L("alice", "chat")}},
+		{Offered: []string{"room"}, Conf: []string{"spare"}, Mode: "seq", Ops: []Op{L("alice", "room"), L("bob", "room"), B("alice", "room"), L("alice", "room"), S("alice", "room"), L("alice", "room"), L("carol", "room")}},
 		// the registry-vs-factory case: the same pair twice
 		{Offered: []string{"chat"}, Mode: "seq", Ops: []Op{L("alice", "chat"), L("alice", "chat"), L("alice", "chat")}},
 		// the separator: ("a-b","c") and ("a","b-c") both derive the child name a-b-c under identity-ability
@@ -758,6 +990,62 @@ func corpus() []Case {
 
 // ---------------------------------------------------------------- driver
 
+type stats struct {
+	begins, winSame, winOther, winCreated int // windows opened; lookups of the terminating pair / of other pairs inside a window; of those, lookups that created an actor
+	confAbilities, confSecond             int // abilities with own configurators; second and further identities created for such an ability
+}
+
+func analyseWindows(c *Case) (st stats) {
+	conf := map[string]bool{}
+	for j, a := range c.Offered {
+		if j < len(c.Conf) && c.Conf[j] != "" {
+			conf[a] = true
+			st.confAbilities++
+		}
+	}
+	open := map[string]bool{}
+	seenInst := map[int]bool{}
+	perAbility := map[string]map[string]bool{}
+	for idx, o := range c.Ops {
+		if idx >= len(c.Impl) {
+			break
+		}
+		r := c.Impl[idx]
+		k := key(o.I, o.A)
+		switch o.K {
+		case "B":
+			if r.K == "begin" && r.Found {
+				st.begins++
+				open[k] = true
+			}
+		case "S":
+			delete(open, k)
+		case "L":
+			if r.K == "ref" {
+				if open[k] {
+					st.winSame++
+				} else if len(open) > 0 {
+					st.winOther++
+					if !seenInst[r.Inst] {
+						st.winCreated++
+					}
+				}
+				seenInst[r.Inst] = true
+				if conf[o.A] {
+					if perAbility[o.A] == nil {
+						perAbility[o.A] = map[string]bool{}
+					}
+					if !perAbility[o.A][o.I] && len(perAbility[o.A]) > 0 {
+						st.confSecond++
+					}
+					perAbility[o.A][o.I] = true
+				}
+			}
+		}
+	}
+	return
+}
+
 func analyse(c *Case) (repeats int, errs int, stops int, dashed int) {
 	cnt := map[string]int{}
 	off := map[string]bool{}
@@ -765,6 +1053,9 @@ func analyse(c *Case) (repeats int, errs int, stops int, dashed int) {
 		off[a] = true
 	}
 	for idx, o := range c.Ops {
+		if o.K == "B" {
+			continue
+		}
 		if o.K == "S" {
 			if idx < len(c.Impl) && c.Impl[idx].Found {
 				stops++
@@ -805,8 +1096,14 @@ func main() {
 	}
 	out := vh.NewOut(f.Out, "drill", "From MV Require Import Lib.ListX C13.DrillModel C13.DrillRun.", "case", "mismatches", f.Seed,
 		"histories of 1..14 lookups / terminations over 3 identities x 3 abilities (0..3 of them offered; a third of the cases over a vocabulary in which every pair derives the same dashed word), "+
-			"sequential, burst (all requests queued before the first answer is read) and 2..4 concurrent client actors; malformed stream (empty names, blanks, slashes, an unusable ability name on offer) counted separately; "+
-			"thorough adds every sequential history of length<=5 over the alphabet {lookup of 2 identities x 3 abilities (one not offered), terminate of 2 pairs}; non-trivial = a usable offered pair looked up at least twice while its actor lives; distinct by hash of the whole case")
+			"sequential, burst (all requests queued before the first answer is read) and 2..4 concurrent client actors; half of the sequential histories with two-phase terminations: B sends the terminate request "+
+			"(graceful or not) and holds the member in the Terminating state (its own OnTerminate handler or that of a child it spawned blocks on a channel of the harness), lookups of that pair and of other pairs, "+
+			"repeated terminate requests and terminations of other members follow inside the window, S releases it and waits for the manager to handle the notice (some windows stay open to the end of the history); "+
+			"in half of the cases abilities are declared with descriptor configurators of their own (name prefix, name, both, two configurators, harmless options only, a slice with spare capacity); "+
+			"malformed stream (empty names, blanks, slashes, an unusable ability name on offer) counted separately; "+
+			"thorough adds every sequential history of length<=5 over the alphabet {lookup of 2 identities x 3 abilities (one not offered), terminate of 2 pairs} and every one of length<=5 over "+
+			"{lookup of 2 identities of an ability with its own name prefix, lookup of an ability not offered, begin of both, terminate of one}; "+
+			"non-trivial = a usable offered pair looked up at least twice while its actor lives or inside its termination window, or a second identity created for an ability with own configurators; distinct by hash of the whole case")
 	rng := vh.NewRNG(f.Seed)
 	n := f.N
 	if n == 0 {
@@ -851,6 +1148,25 @@ func main() {
 			}
 		}
 		rec(nil, 5)
+		// the same with termination windows and an ability that has a name prefix of its own
+		alpha = []Op{{K: "L", I: "a", A: "c"}, {K: "L", I: "b", A: "c"}, {K: "L", I: "a", A: "z"}, {K: "B", I: "a", A: "c"}, {K: "B", I: "b", A: "c"}, {K: "S", I: "a", A: "c"}}
+		var rec2 func(prefix []Op, depth int)
+		rec2 = func(prefix []Op, depth int) {
+			if len(prefix) > 0 {
+				hold := ""
+				if len(prefix)%2 == 0 {
+					hold = "child"
+				}
+				jobs = append(jobs, job{Case{Offered: []string{"c"}, Conf: []string{"prefix"}, Hold: hold, Mode: "seq", Ops: append([]Op(nil), prefix...)}, false})
+			}
+			if depth == 0 {
+				return
+			}
+			for _, o := range alpha {
+				rec2(append(prefix, o), depth-1)
+			}
+		}
+		rec2(nil, 5)
 	}
 	// run the cases on a pool of workers (every case has an actor system of its own), record in generation order
 	workers := 12
@@ -886,8 +1202,29 @@ func main() {
 
 func recordDone(out *vh.Out, c *Case, mal bool, v []vh.Violation) {
 	rep, errs, stops, dashed := analyse(c)
+	w := analyseWindows(c)
 	if mal {
 		out.Malformed()
+	}
+	out.Count("termination_windows_opened", vh.Bucket(w.begins))
+	out.Count("lookups_of_the_terminating_pair_inside_its_window", vh.Bucket(w.winSame))
+	out.Count("lookups_of_other_pairs_inside_a_window", vh.Bucket(w.winOther))
+	out.Count("actors_created_inside_a_window", vh.Bucket(w.winCreated))
+	if w.begins > 0 {
+		hold := c.Hold
+		if hold == "" {
+			hold = "handler"
+		}
+		out.Count("window_held_by", hold)
+	}
+	out.Count("abilities_with_own_configurators", fmt.Sprint(w.confAbilities))
+	out.Count("further_identities_of_an_ability_with_own_configurators", vh.Bucket(w.confSecond))
+	for j := range c.Offered {
+		kind := "none"
+		if j < len(c.Conf) && c.Conf[j] != "" {
+			kind = c.Conf[j]
+		}
+		out.Count("ability_configurator_kind", kind)
 	}
 	out.Count("mode", c.Mode)
 	out.Count("ops_len", vh.Bucket(len(c.Ops)))
@@ -899,5 +1236,5 @@ func recordDone(out *vh.Out, c *Case, mal bool, v []vh.Violation) {
 	for _, r := range c.Impl {
 		out.Count("answers", r.K)
 	}
-	out.Add(c, coqCase(out.N(), c), rep > 0, v)
+	out.Add(c, coqCase(out.N(), c), rep > 0 || w.winSame > 0 || w.confSecond > 0, v)
 }
